@@ -164,8 +164,10 @@ class ASTRewriter(ast.NodeTransformer):
             else:
                 outer_tuple = gtype.slice
                 max_i = len(outer_tuple.elts) - 1
-                inner_tuple = outer_tuple.elts
-                max_j = len(inner_tuple) - 1
+                inner_tuple = outer_tuple.elts[0]
+                if isinstance(inner_tuple, ast.Subscript):
+                    inner_tuple = inner_tuple.slice
+                max_j = len(inner_tuple.elts) - 1
 
             # Create the IfExp structure
             return create_if_exp(nname, iname, max_i, jname, max_j)
